@@ -51,6 +51,22 @@ fn alphabet() -> Vec<Letter> {
     v
 }
 
+/// reduced alphabet for the larger multisets: long public schedules (QUIC, TCP, Happy-Eyeballs pairs, WebRTC-direct
+/// last), relay and no-IP addresses behind them
+fn deep_alphabet() -> Vec<Letter> {
+    vec![
+        Letter { host: Host::V4Pub, tr: Tr::QuicV1, circuit: false },
+        Letter { host: Host::V6Pub, tr: Tr::QuicV1, circuit: false },
+        Letter { host: Host::V4Pub, tr: Tr::Tcp, circuit: false },
+        Letter { host: Host::V6Pub, tr: Tr::Tcp, circuit: false },
+        Letter { host: Host::V4Pub, tr: Tr::WebrtcDirect, circuit: false },
+        Letter { host: Host::V4Priv, tr: Tr::Tcp, circuit: false },
+        Letter { host: Host::V4Pub, tr: Tr::Tcp, circuit: true },
+        Letter { host: Host::V4Pub, tr: Tr::QuicV1, circuit: true },
+        Letter { host: Host::DnsNon, tr: Tr::Tcp, circuit: false },
+    ]
+}
+
 /// the group the DOCUMENTATION / property statement assigns
 fn group(l: &Letter) -> &'static str {
     if l.circuit {
@@ -135,19 +151,30 @@ pub fn main(a: &vcommon::Args) {
     let mut out = Out::create(a.get(1));
     let letters = alphabet();
     let relay = PeerId::random();
+    enumerate(&mut out, &letters, 1, maxn, &relay);
+    // deep=N: every multiset (both orders) of size 5..=N over the reduced alphabet
+    let deep = a.kv_num("deep", 0) as usize;
+    if deep >= 5 {
+        enumerate(&mut out, &deep_alphabet(), 5, deep, &relay);
+    }
+    println!("records={}", out.events);
+    out.finish();
+}
+
+fn enumerate(out: &mut Out, letters: &[Letter], from: usize, maxn: usize, relay: &PeerId) {
     let k = letters.len();
     // all sequences (order matters for a stable sort based ranker) of length 1..=2, multisets for longer
-    for n in 1..=maxn {
+    for n in from..=maxn {
         let mut idx = vec![0usize; n];
         loop {
             let ordered = n <= 2 || idx.windows(2).all(|w| w[0] <= w[1]);
             if ordered {
-                emit(&mut out, &letters, &idx, &relay);
+                emit(out, letters, &idx, relay);
                 if n > 2 {
                     // also the reversed order of the same multiset
                     let rev: Vec<usize> = idx.iter().rev().cloned().collect();
                     if rev != idx {
-                        emit(&mut out, &letters, &rev, &relay);
+                        emit(out, letters, &rev, relay);
                     }
                 }
             }
@@ -165,6 +192,4 @@ pub fn main(a: &vcommon::Args) {
             }
         }
     }
-    println!("records={}", out.events);
-    out.finish();
 }
